@@ -322,6 +322,13 @@ func h2Sequences() []h2gen {
 		{"headers-padded-bad", func(r *hk.Rand) []byte {
 			return cat(pre, rawFrame(fHeaders, 0x8|0x4|1, 1, append([]byte{byte(hk.Pick(r, []int{50, 255}))}, hpackBlock(okHeaders())...)))
 		}},
+		{"headers-padded-priority-edge", func(r *hk.Rand) []byte {
+			// PADDED+PRIORITY: the pad length fits the payload before the 5 priority bytes are taken off, not after
+			m := r.Intn(4)
+			pad := m + 1 + r.Intn(5)
+			p := append([]byte{byte(pad)}, make([]byte, 5+m)...)
+			return cat(pre, rawFrame(fHeaders, 0x8|0x20|0x4|1, 1, p), resp("x"))
+		}},
 		{"headers-priority-short", func(r *hk.Rand) []byte { return cat(pre, rawFrame(fHeaders, 0x20|0x4|1, 1, make([]byte, r.Intn(5)))) }},
 		{"headers-bad-hpack", func(r *hk.Rand) []byte { return cat(pre, rawFrame(fHeaders, 0x4|1, 1, hk.Pick(r, badHpack))) }},
 		{"headers-random-hpack", func(r *hk.Rand) []byte { return cat(pre, rawFrame(fHeaders, 0x4|1, 1, r.Bytes(r.Range(1, 300)))) }},
@@ -520,9 +527,9 @@ func genH2Cases(r *hk.Rand, quick bool, add func(*Case)) {
 			if g.shape == "header-list-too-large" {
 				c.Opts.H2MaxHeaderList = 4096
 			}
-			c.Opts.TimeoutMs = 3000
+			c.Opts.TimeoutMs = 1500
 			rr := r.Fork()
-			c.Rounds = []Round{{Data: g.data(rr), Segs: randSegs(r), End: hk.Pick(r, []string{"fin", "fin", "fin", "hold"}), Hold: 4000}}
+			c.Rounds = []Round{{Data: g.data(rr), Segs: randSegs(r), End: hk.Pick(r, []string{"fin", "fin", "fin", "fin", "fin", "fin", "fin", "fin", "fin", "hold"}), Hold: 2500}}
 			if strings.Contains(g.shape, "flood") {
 				c.Rounds[0].Segs = nil
 				c.Flood = 48 << 20
@@ -530,7 +537,7 @@ func genH2Cases(r *hk.Rand, quick bool, add func(*Case)) {
 			add(c)
 		}
 	}
-	for i, n := 0, map[bool]int{true: 150, false: 6000}[quick]; i < n; i++ {
+	for i, n := 0, map[bool]int{true: 100, false: 6000}[quick]; i < n; i++ {
 		add(genH2Structured(r))
 	}
 }
